@@ -58,6 +58,10 @@ def validate_fri_trace(ctx, inst, k, tag=""):
     return res, tf, name
 
 
+# hint sites outside GlGadgets' four inside this code region are probed with generic alternatives after run() (bin/check, common.Ctx.foreign)
+FOREIGN = (("fri.",), ("testdata",))
+
+
 def run(ctx):
     ctx.rule = ("sub-gadget x parameterisation x operand tuple: domain indices {0,1,2^n-1,seeded}; batch sizes of the real circuits and small ones with seeded "
                 "evaluations/openings/alpha/x; all 16 within-coset positions x {beta on the coset, structured values, beta = 0, seeded}; final polynomials; distinct = distinct tuples")
